@@ -376,6 +376,7 @@ Qed.
 Section EngineProofs.
   Variable H : list N -> list N.
   Variable genesis : hash.
+  Variable rekey : bool.          (* true = current code (end_block files the block under Known), false = pinned *)
 
   Lemma fold_txs_app : forall h a b, fold_txs H h (a ++ b) = fold_txs H (fold_txs H h a) b.
   Proof. intros. unfold fold_txs. apply fold_left_app. Qed.
@@ -398,23 +399,50 @@ Section EngineProofs.
         apply ipb_eqb_eq in E2. subst i0. destruct (ipb_eqb i j) eqn:E3; [|reflexivity].
         apply ipb_eqb_eq in E3. subst. rewrite ipb_eqb_refl in E. discriminate.
   Qed.
-
+  Lemma eng_get_del : forall e i j, eng_get (eng_del e i) j = if ipb_eqb i j then None else eng_get e j.
+  Proof.
+    unfold eng_del. induction e as [|[i0 x0] e IH]; intros i j; cbn [filter eng_get fst].
+    - destruct (ipb_eqb i j); reflexivity.
+    - destruct (ipb_eqb i0 i) eqn:E; cbn [negb].
+      + rewrite IH. apply ipb_eqb_eq in E. subst i0. destruct (ipb_eqb i j); reflexivity.
+      + cbn [eng_get]. rewrite IH. destruct (ipb_eqb i0 j) eqn:E2; auto.
+        apply ipb_eqb_eq in E2. subst i0. destruct (ipb_eqb i j) eqn:E3; [|reflexivity].
+        apply ipb_eqb_eq in E3. subst. rewrite ipb_eqb_refl in E. discriminate.
+  Qed.
+  Lemma eng_get_filter_none : forall (f : ipb * block_exec -> bool) e i, eng_get e i = None -> eng_get (filter f e) i = None.
+  Proof.
+    induction e as [|[i0 x0] e IH]; intros i G; cbn [filter eng_get] in *; auto.
+    destruct (ipb_eqb i0 i) eqn:E; [discriminate|]. destruct (f (i0, x0)); cbn [eng_get]; rewrite ?E; auto.
+  Qed.
   Lemma eng_put_put : forall e i x y, eng_put (eng_put e i x) i y = eng_put e i y.
   Proof.
     induction e as [|[i0 x0] e IH]; intros i x y; cbn [eng_put].
     - rewrite ipb_eqb_refl. reflexivity.
     - destruct (ipb_eqb i0 i) eqn:E; cbn [eng_put]; rewrite E; [reflexivity | f_equal; apply IH].
   Qed.
+
+  Notation step := (eng_step H genesis rekey).
+  Notation run := (eng_run H genesis rekey).
+  Notation state := (eng_state H genesis rekey).
+
   (* streaming: executing a block's transactions slice by slice equals executing them at once *)
   Theorem exec_slices : forall e id a b,
-    fst (eng_step H genesis (fst (eng_step H genesis e (EExec id a))) (EExec id b)) =
-    fst (eng_step H genesis e (EExec id (a ++ b))).
+    fst (step (fst (step e (EExec id a))) (EExec id b)) = fst (step e (EExec id (a ++ b))).
   Proof.
     intros e id a b. unfold eng_step at 2 3. destruct (eng_get e id) as [x|] eqn:G; cbn [fst].
     - unfold eng_step. rewrite eng_get_put, ipb_eqb_refl. cbn [fst be_count be_hash].
       rewrite eng_put_put, fold_txs_app, app_length, Nat2N.inj_add, N.add_assoc. reflexivity.
     - unfold eng_step. rewrite G. reflexivity.
   Qed.
+
+  Lemma run_app : forall a e b, run e (a ++ b) = run e a ++ run (state e a) b.
+  Proof.
+    induction a as [|o a IH]; intros e b; cbn [app eng_run]; [reflexivity|].
+    unfold eng_state. cbn [fold_left]. fold (state (fst (step e o)) a).
+    destruct (step e o) as [e' ev]. cbn [fst]. rewrite IH, app_assoc. reflexivity.
+  Qed.
+  Lemma state_app : forall a e b, state e (a ++ b) = state (state e a) b.
+  Proof. intros. unfold eng_state. apply fold_left_app. Qed.
 
   (* ghost engine: every live block remembers the seed chosen at begin_block and the transactions
      executed since; the real engine is its evaluation *)
@@ -429,14 +457,26 @@ Section EngineProofs.
     | [] => [(i, x)]
     | (j, y) :: t => if ipb_eqb j i then (j, x) :: t else (j, y) :: g_put t i x
     end.
+  Definition g_del (g : list gentry) (i : ipb) : list gentry := filter (fun jx => negb (ipb_eqb (fst jx) i)) g.
   Definition g_lookup_block (g : list gentry) (b : block_id) : option (hash * list (list N)) :=
     match g_get g (Known (fst b) (snd b)) with Some x => Some x | None => g_get g (Pending (fst b)) end.
+  Definition g_end (g : list gentry) (b : block_id) : list gentry * list (block_id * hash * list (list N)) :=
+    if rekey then
+      match g_get g (Known (fst b) (snd b)) with
+      | Some (s, txs) => (g, [(b, s, txs)])
+      | None =>
+        match g_get g (Pending (fst b)) with
+        | Some (s, txs) => (g_put (g_del g (Pending (fst b))) (Known (fst b) (snd b)) (s, txs), [(b, s, txs)])
+        | None => (g, [])
+        end
+      end
+    else match g_lookup_block g b with None => (g, []) | Some (s, txs) => (g, [(b, s, txs)]) end.
   (* ghost events carry (block, seed, transactions) *)
   Definition g_step (g : list gentry) (o : eop) : list gentry * list (block_id * hash * list (list N)) :=
     match o with
     | EBegin id parent => (g_put g id (eng_seed genesis (gerase g) parent, []), [])
     | EExec id txs => match g_get g id with None => (g, []) | Some (s, old) => (g_put g id (s, old ++ txs), []) end
-    | EEnd b => match g_lookup_block g b with None => (g, []) | Some (s, txs) => (g, [(b, s, txs)]) end
+    | EEnd b => g_end g b
     | EFinalize b => (filter (fun ix => fst b <=? ipb_slot (fst ix)) g, [])
     end.
   Fixpoint g_run (g : list gentry) (ops : list eop) : list (block_id * hash * list (list N)) :=
@@ -462,24 +502,30 @@ Section EngineProofs.
     induction g as [|[j x] g IH]; intros p; cbn [gerase map filter gerase1 fst]; auto.
     destruct (p j); cbn [map gerase1 fst]; [f_equal|]; apply IH.
   Qed.
+  Lemma gerase_del : forall g i, gerase (g_del g i) = eng_del (gerase g) i.
+  Proof. intros g i. unfold g_del, eng_del. apply (gerase_filter g (fun j => negb (ipb_eqb j i))). Qed.
 
   Lemma g_step_erase : forall g o,
-    eng_step H genesis (gerase g) o = (gerase (fst (g_step g o)), map g_eval (snd (g_step g o))).
+    step (gerase g) o = (gerase (fst (g_step g o)), map g_eval (snd (g_step g o))).
   Proof.
     intros g o. destruct o as [id parent | id txs | b | b]; cbn [eng_step g_step].
     - cbn [fst snd map]. rewrite gerase_put. reflexivity.
     - rewrite gerase_get. destruct (g_get g id) as [[s old]|]; cbn [option_map fst snd map]; auto.
       rewrite gerase_put. cbn [be_count be_hash]. rewrite fold_txs_app, app_length, Nat2N.inj_add. reflexivity.
-    - unfold eng_lookup_block, g_lookup_block. rewrite !gerase_get.
-      destruct (g_get g (Known (fst b) (snd b))) as [[s txs]|]; cbn [option_map fst snd map].
-      + reflexivity.
-      + destruct (g_get g (Pending (fst b))) as [[s txs]|]; cbn [option_map fst snd map]; reflexivity.
+    - unfold eng_end, g_end, eng_lookup_block, g_lookup_block. destruct rekey.
+      + rewrite !gerase_get.
+        destruct (g_get g (Known (fst b) (snd b))) as [[s txs]|]; cbn [option_map fst snd map]; [reflexivity|].
+        destruct (g_get g (Pending (fst b))) as [[s txs]|]; cbn [option_map fst snd map]; [|reflexivity].
+        rewrite gerase_put, gerase_del. reflexivity.
+      + rewrite !gerase_get.
+        destruct (g_get g (Known (fst b) (snd b))) as [[s txs]|]; cbn [option_map fst snd map]; [reflexivity|].
+        destruct (g_get g (Pending (fst b))) as [[s txs]|]; cbn [option_map fst snd map]; reflexivity.
     - cbn [fst snd map]. rewrite (gerase_filter g (fun i => fst b <=? ipb_slot i)). reflexivity.
   Qed.
 
   (* every reported commitment is the fold of exactly the block's transaction sequence from the seed
      fixed at begin_block, and the reported count is the length of that sequence *)
-  Theorem engine_reports_fold : forall ops g, eng_run H genesis (gerase g) ops = map g_eval (g_run g ops).
+  Theorem engine_reports_fold : forall ops g, run (gerase g) ops = map g_eval (g_run g ops).
   Proof.
     induction ops as [|o ops IH]; intros g; cbn [eng_run g_run]; auto.
     rewrite g_step_erase. destruct (g_step g o) as [g' ev]. cbn [fst snd]. rewrite map_app, IH. reflexivity.
@@ -495,7 +541,7 @@ Section EngineProofs.
   Theorem seed_unknown_parent : forall e (p : block_id), eng_get e (Known (fst p) (snd p)) = None ->
     eng_get e (Pending (fst p)) = None -> eng_seed genesis e (Some p) = snd p.
   Proof. intros e p E1 E2. unfold eng_seed, eng_lookup_block. rewrite E1, E2. reflexivity. Qed.
-  (* the fallback the implementation actually takes: ANY pending block of the parent's slot *)
+  (* a block still pending in the parent's slot (its hash is not known yet) is taken for the parent *)
   Theorem seed_pending_slot : forall e (p : block_id) x, eng_get e (Known (fst p) (snd p)) = None ->
     eng_get e (Pending (fst p)) = Some x -> eng_seed genesis e (Some p) = be_hash x.
   Proof. intros e p x E1 E2. unfold eng_seed, eng_lookup_block. rewrite E1, E2. reflexivity. Qed.
@@ -508,34 +554,112 @@ Definition mentions_block (p : block_id) (o : eop) : bool :=
   | EEnd b => (fst b =? fst p) && bytes_eqb (snd b) (snd p)
   | _ => false
   end.
-(* the ideal statement: a block whose parent was never executed reports the fold from the parent block hash *)
-Definition unknown_parent_uses_block_hash : Prop :=
+
+(* the statement "a block whose parent was never executed reports the fold from the parent block hash",
+   in the naive form that ignores blocks of the parent's slot *)
+Definition unknown_parent_uses_block_hash (rekey : bool) : Prop :=
   forall (H : list N -> list N) (genesis : hash) (ops : list eop) (slot : N) (p : block_id) (txs : list (list N)) (b : block_id),
     fst b = slot -> existsb (mentions_block p) ops = false ->
-    eng_run H genesis [] (ops ++ [EBegin (Pending slot) (Some p); EExec (Pending slot) txs; EEnd b])
-    = eng_run H genesis [] ops ++ [(b, N.of_nat (length txs), fold_txs H (snd p) txs)].
+    eng_run H genesis rekey [] (ops ++ [EBegin (Pending slot) (Some p); EExec (Pending slot) txs; EEnd b])
+    = eng_run H genesis rekey [] ops ++ [(b, N.of_nat (length txs), fold_txs H (snd p) txs)].
 
-Theorem unknown_parent_uses_block_hash_refuted : ~ unknown_parent_uses_block_hash.
+(* PINNED tree: false, because a pending block that ENDED under another hash is taken for the parent *)
+Theorem pinned_unknown_parent_uses_block_hash_refuted : ~ unknown_parent_uses_block_hash false.
 Proof.
   intros P.
   specialize (P (fun x => x) [0] [EBegin (Pending 1) None; EExec (Pending 1) [[7]]; EEnd (1, [10])]
                 2 (1, [11]) [[9]] (2, [12]) eq_refl eq_refl).
   vm_compute in P. discriminate.
 Qed.
+(* the same call sequence on the current code reports the fold from the parent block hash [11] *)
+Example current_engine_on_the_pinned_witness :
+  eng_run (fun x => x) [0] true []
+    ([EBegin (Pending 1) None; EExec (Pending 1) [[7]]; EEnd (1, [10])] ++
+     [EBegin (Pending 2) (Some (1, [11])); EExec (Pending 2) [[9]]; EEnd (2, [12])])
+  = [((1, [10]), 1, [0; 7]); ((2, [12]), 1, [11; 9])].
+Proof. vm_compute. reflexivity. Qed.
 
-(* what is true instead: it holds whenever no block is pending in the parent's slot at begin time *)
-Theorem unknown_parent_residual : forall (H : list N -> list N) (genesis : hash) (e : engine) (slot : N) (p : block_id)
-  (txs : list (list N)) (b : block_id),
+(* holds for both variants: it is enough that nothing is live for the parent and for the block itself *)
+Theorem unknown_parent_residual : forall (H : list N -> list N) (genesis : hash) (rekey : bool) (e : engine) (slot : N)
+  (p : block_id) (txs : list (list N)) (b : block_id),
   fst b = slot -> eng_get e (Known (fst p) (snd p)) = None -> eng_get e (Pending (fst p)) = None ->
   eng_get e (Known (fst b) (snd b)) = None ->
-  eng_run H genesis e [EBegin (Pending slot) (Some p); EExec (Pending slot) txs; EEnd b]
+  eng_run H genesis rekey e [EBegin (Pending slot) (Some p); EExec (Pending slot) txs; EEnd b]
   = [(b, N.of_nat (length txs), fold_txs H (snd p) txs)].
 Proof.
-  intros H genesis e slot p txs b Eb E1 E2 E3. subst slot. cbn [eng_run eng_step app].
+  intros H genesis rekey e slot p txs b Eb E1 E2 E3. subst slot. cbn [eng_run eng_step app].
   rewrite (seed_unknown_parent genesis e p E1 E2).
   rewrite eng_get_put, ipb_eqb_refl. cbn [be_count be_hash app].
-  unfold eng_lookup_block. rewrite !eng_get_put. cbn [ipb_eqb].
-  rewrite E3. rewrite N.eqb_refl. cbn [app be_count be_hash]. rewrite N.add_0_l. reflexivity.
+  unfold eng_end, eng_lookup_block. rewrite !eng_get_put. cbn [ipb_eqb].
+  rewrite E3. rewrite N.eqb_refl. destruct rekey; cbn [app be_count be_hash]; rewrite N.add_0_l; reflexivity.
+Qed.
+
+(* ---------- the current engine: Known(p) is live only if p was begun as Known or ended ---------- *)
+Lemma step_keeps_known_absent : forall H genesis rekey e o (p : block_id), mentions_block p o = false ->
+  eng_get e (Known (fst p) (snd p)) = None ->
+  eng_get (fst (eng_step H genesis rekey e o)) (Known (fst p) (snd p)) = None.
+Proof.
+  intros H genesis rekey e o p M G. destruct o as [id parent | id txs | b | b]; cbn [eng_step fst].
+  - rewrite eng_get_put. destruct id as [s|s h]; cbn [ipb_eqb mentions_block] in *; [exact G | rewrite M; exact G].
+  - destruct (eng_get e id) as [x|] eqn:Gi; cbn [fst]; [|exact G].
+    rewrite eng_get_put. destruct (ipb_eqb id (Known (fst p) (snd p))) eqn:E; [|exact G].
+    apply ipb_eqb_eq in E. subst id. congruence.
+  - cbn [mentions_block] in M. unfold eng_end, eng_lookup_block. destruct rekey.
+    + destruct (eng_get e (Known (fst b) (snd b))); cbn [fst]; [exact G|].
+      destruct (eng_get e (Pending (fst b))); cbn [fst]; [|exact G].
+      rewrite eng_get_put. cbn [ipb_eqb]. rewrite M. rewrite eng_get_del. cbn [ipb_eqb]. exact G.
+    + destruct (eng_get e (Known (fst b) (snd b))); cbn [fst]; [exact G|].
+      destruct (eng_get e (Pending (fst b))); cbn [fst]; exact G.
+  - apply eng_get_filter_none. exact G.
+Qed.
+Lemma known_absent_unless_mentioned : forall H genesis rekey ops e (p : block_id),
+  existsb (mentions_block p) ops = false -> eng_get e (Known (fst p) (snd p)) = None ->
+  eng_get (eng_state H genesis rekey e ops) (Known (fst p) (snd p)) = None.
+Proof.
+  induction ops as [|o ops IH]; intros e p M G; [exact G|].
+  cbn [existsb] in M. apply orb_false_iff in M. destruct M as [M1 M2].
+  unfold eng_state. cbn [fold_left]. apply IH; auto. apply step_keeps_known_absent; auto.
+Qed.
+
+(* CURRENT code, full strength: for every call history, a block whose parent p was never begun as Known nor
+   ended under that identifier, while no block is still pending in p's slot, reports the fold of its
+   transactions from the parent BLOCK hash (b itself must not have been filed before) *)
+Theorem current_unknown_parent_uses_block_hash : forall (H : list N -> list N) (genesis : hash) (ops : list eop)
+  (slot : N) (p : block_id) (txs : list (list N)) (b : block_id),
+  fst b = slot -> existsb (mentions_block p) ops = false -> existsb (mentions_block b) ops = false ->
+  eng_get (eng_state H genesis true [] ops) (Pending (fst p)) = None ->
+  eng_run H genesis true [] (ops ++ [EBegin (Pending slot) (Some p); EExec (Pending slot) txs; EEnd b])
+  = eng_run H genesis true [] ops ++ [(b, N.of_nat (length txs), fold_txs H (snd p) txs)].
+Proof.
+  intros H genesis ops slot p txs b Eb Mp Mb NP. rewrite run_app. f_equal.
+  apply unknown_parent_residual; auto; apply known_absent_unless_mentioned; auto.
+Qed.
+
+(* ending a pending block files it under its identifier: nothing stays pending in its slot *)
+Lemma end_clears_pending : forall H genesis e (b : block_id), eng_get e (Known (fst b) (snd b)) = None ->
+  eng_get (fst (eng_step H genesis true e (EEnd b))) (Pending (fst b)) = None.
+Proof.
+  intros H genesis e b G. cbn [eng_step]. unfold eng_end. rewrite G.
+  destruct (eng_get e (Pending (fst b))) eqn:GP; cbn [fst]; [|exact GP].
+  rewrite eng_get_put. cbn [ipb_eqb]. rewrite eng_get_del, ipb_eqb_refl. reflexivity.
+Qed.
+(* ... hence a block of slot s that ENDED as (s, A) is never the seed of a child of (s, B), B <> A: for every
+   history in which neither (s, A) nor (s, B) was filed before, the child of (s, B) begun right after
+   end_block((s, A)) folds from block hash B *)
+Theorem current_ended_block_never_seed : forall (H : list N -> list N) (genesis : hash) (ops : list eop)
+  (s : N) (A B : hash) (slot : N) (txs : list (list N)) (c : block_id),
+  bytes_eqb A B = false -> fst c = slot ->
+  existsb (mentions_block (s, A)) ops = false -> existsb (mentions_block (s, B)) ops = false ->
+  existsb (mentions_block c) (ops ++ [EEnd (s, A)]) = false ->
+  eng_run H genesis true [] ((ops ++ [EEnd (s, A)]) ++ [EBegin (Pending slot) (Some (s, B)); EExec (Pending slot) txs; EEnd c])
+  = eng_run H genesis true [] (ops ++ [EEnd (s, A)]) ++ [(c, N.of_nat (length txs), fold_txs H B txs)].
+Proof.
+  intros H genesis ops s A B slot txs c AB Ec MA MB Mc.
+  apply (current_unknown_parent_uses_block_hash H genesis (ops ++ [EEnd (s, A)]) slot (s, B) txs c); auto.
+  - rewrite existsb_app, MB. cbn [existsb mentions_block fst snd]. rewrite N.eqb_refl, AB. reflexivity.
+  - rewrite state_app. unfold eng_state at 1. cbn [fold_left fst].
+    apply (end_clears_pending H genesis _ (s, A)).
+    apply (known_absent_unless_mentioned H genesis true ops [] (s, A)); auto.
 Qed.
 
 (* ---------- statements as used by Props/C20.v ---------- *)
